@@ -414,8 +414,25 @@ func e2e(t *testing.T, tw *tracefmt.Writer, st *stats, rng *rand.Rand, n int) {
 		"a7.ex", "lobby.ex", "x.lobby.ex", "LOBBY.EX\x00FML3\x00", "zz.top", "", ".", "t7.mc.ex", "s7.mc.exx",
 		"(s2).mc.ex", "É3.ex", "é4.ex\x00FML\x00", "L1\n.lobby.ex", "unknown.host///1.2.3.4:5///6", "play.ex",
 	}
-	for i := 0; i < n; i++ {
+	// fixed boundary cases first: hosts that are empty after cleaning against route lists with a
+	// pattern that matches the empty string (catch-all), and without one
+	type fixedCase struct {
+		shapes []e2eRoute
+		host   string
+	}
+	var fixed []fixedCase
+	catchAll := e2eRoute{[]string{"*"}, "127.0.0.1:%d"}
+	catchAll2 := e2eRoute{[]string{"lobby.ex", "**"}, "127.0.0.1:%d"}
+	named := e2eRoute{[]string{"lobby.ex", "*.lobby.ex"}, "127.0.0.1:%d"}
+	for _, h := range []string{"", "...", "\x00FML2\x00", "///1.2.3.4:5///1700000000", ".\x00FORGE", "."} {
+		fixed = append(fixed, fixedCase{[]e2eRoute{catchAll}, h}, fixedCase{[]e2eRoute{named, catchAll}, h},
+			fixedCase{[]e2eRoute{catchAll2}, h}, fixedCase{[]e2eRoute{named}, h})
+	}
+	for i := 0; i < n+len(fixed); i++ {
 		nr := 1 + rng.Intn(3)
+		if i < len(fixed) {
+			nr = len(fixed[i].shapes)
+		}
 		var routes []config.Route
 		rpats, tmpls := [][][]int{}, [][]int{}
 		for r := 0; r < nr; r++ {
@@ -423,12 +440,18 @@ func e2e(t *testing.T, tw *tracefmt.Writer, st *stats, rng *rand.Rand, n int) {
 			if sh.pats[0] == "*" && rng.Intn(3) != 0 {
 				sh = shapes[rng.Intn(5)]
 			}
+			if i < len(fixed) {
+				sh = fixed[i].shapes[r]
+			}
 			tm := fmt.Sprintf(sh.tmpl, bes[r].Port)
 			routes = append(routes, config.Route{Host: sh.pats, Backend: []string{tm}})
 			rpats = append(rpats, cpss(sh.pats))
 			tmpls = append(tmpls, cps(tm))
 		}
 		host := hosts[rng.Intn(len(hosts))]
+		if i < len(fixed) {
+			host = fixed[i].host
+		}
 		// play.ex under "S*.Mc.Ex"'s route has no wildcard text for $1: keep such cases out
 		// (the dial would fail for reasons outside the property)
 		skip := false
